@@ -558,7 +558,20 @@ def run(ch, ctx, fault=None):
                         direct_equals_twin(d, spec, format(d["image"], spec), desc)
                 elif op == "draw":
                     desc = "%s.draw(repeat=1)" % d["desc"]
-                    if not d["image"].closed:
+                    if not d["image"].closed and ch.bool("too_wide_for_the_terminal", 0.15):
+                        # a fixed size that cannot fit: the draw is refused (documented error) -
+                        # whatever was opened on the way is closed again all the same
+                        old_size = d["image"].size
+                        d["image"].set_size(width=cols + ch.int("over", 1, 4))
+                        desc = "%s.draw() at width %d on %d columns" % (
+                            d["desc"], d["image"].size[0], cols)
+                        ctx.probe("draw_refused_for_size")
+                        try:
+                            d["image"].draw()
+                            raise Violation("oversized_draw_accepted", {"op": desc}, "draw")
+                        finally:
+                            d["image"].size = old_size
+                    elif not d["image"].closed:
                         t0 = d["image"].tell()
                         d["image"].draw(pad_height=1, repeat=1, cached=ch.bool("dc", 0.5),
                                         check_size=False)
@@ -731,7 +744,8 @@ def run(ch, ctx, fault=None):
             ctx.op("%s%s" % (desc, " -> raised %r" % (exc,) if exc is not None else ""))
             key.append((desc, type(exc).__name__ if exc is not None else None))
             if exc is not None:
-                if fault_here and fault["kind"] in ("pil.convert", "pil.resize"):
+                if fault_here and fault["kind"] in ("pil.convert", "pil.resize") or \
+                        op == "draw" and type(exc).__name__ == "InvalidSizeError":
                     # the conversion / resize step closes what it was working on itself
                     # (try/finally in the library): that must not wait for the caller to drop
                     # the exception - `exc` and its traceback are still alive here
